@@ -118,3 +118,11 @@ CLAIMED['C11'] = (
     'placeholder structure for species lookup; few atoms/frames; z3.',
     'DESIGN.md §3 C11')
 NOT_APPLICABLE.pop('C11', None)
+CLAIMED['C02'] = (
+    'symbolic execution of _calculate_atom_states / integer_remap / _compute_site_radius on symbolic atom positions; PeriodicKDTree and pymatgen distances by their contracts; z3 (NRA) banded obligations',
+    'For every atom position on the scanned lines through the cell (each pool lattice, both radius forms, inner fractions): the outer/inner state is site k exactly when the true minimum-image distance '
+    'to site k is within the (scaled) radius (1e-3 A band), inner in {none, outer}, per-label indices are global; automatic radius proved non-overlapping for every vibration amplitude.',
+    'PeriodicKDTree by contract (periodic cell = triclinic_vectors(float32 box), wrap, min-image within radius); positions restricted to lines (one symbolic axis) on non-cubic cells because nlsat does not finish 3-D queries; '
+    'non-overlapping radii; strongly triclinic cells outside; z3.',
+    'DESIGN.md §3 C02')
+NOT_APPLICABLE.pop('C02', None)
